@@ -1,5 +1,217 @@
-(* placeholder while the model is being validated *)
-From Coq Require Import List Arith.
-From BV Require Import Lib.Dag Lib.DagMergeSort Model.RevSpec.
-Theorem C22_placeholder : True. Proof. exact I. Qed.
-Print Assumptions C22_placeholder.
+(* Properties/C22.v -- Revision numbers and revision specifiers resolve consistently.
+   Statements only; the model is Model/RevSpec.v (on Lib/Dag.v and
+   Lib/DagMergeSort.v), the proofs are in Theory/RevSpec.v and
+   Theory/DagMergeSortFacts.v.
+
+   b = (graph, tip, tags) is ANY branch over a well-formed revision graph (any
+   size and shape: merges of merges, criss-cross, several roots, ghosts);
+   [lh b] is the left-hand history of the tip (newest first), [history b] the
+   same oldest first, [last_revno b] its length.  [merge_sorted g tip] is the
+   Gallina rendering of the merge-sort numbering rules; the real numbering is
+   computed by compiled vcsgraph (outside /repo) and compared with it on every
+   generated history by harness/props/c22.py -- that agreement, and the
+   distinctness of the dotted revnos ([ms_good], evaluated by the oracle on
+   every real merge-sorted list), are the PARTIAL part of C22. *)
+From Coq Require Import List Arith Bool ZArith Permutation.
+From BV Require Import Lib.Dag Theory.DagFacts Lib.DagMergeSort Theory.DagMergeSortFacts
+                       Model.RevSpec Theory.RevSpec.
+Import ListNotations.
+
+(* ---- revision number n names the n-th revision of the left-hand history ------------- *)
+
+Theorem C22_revno_nth :
+  forall b n, n < last_revno b ->
+  get_rev_id b (Z.of_nat (S n)) = match nth_error (history b) n with
+                                  | Some r => Ok (Some r)
+                                  | None => Err NoSuchRevision
+                                  end /\
+  exists r, nth_error (history b) n = Some r.
+Proof.
+  intros b n L. split; [apply get_rev_id_nth; exact L|].
+  destruct (get_rev_id_in_range b n L) as [r [E _]]. exists r. exact E.
+Qed.
+Print Assumptions C22_revno_nth.
+
+(* outside 1..last_revno there is no such revision; 0 is the null revision *)
+Theorem C22_revno_out_of_range :
+  forall b n, (n < 0 \/ Z.of_nat (last_revno b) < n)%Z -> get_rev_id b n = Err RevnoOutOfBounds.
+Proof. exact get_rev_id_out_of_range. Qed.
+Print Assumptions C22_revno_out_of_range.
+
+(* revision_id_to_revno is the position in the left-hand history, and the two
+   conversions are inverse *)
+Theorem C22_revno_position :
+  forall b r n, wf_dag (br_g b) = true ->
+  (revision_id_to_revno b (Some r) = Ok (S n) <-> nth_error (history b) n = Some r).
+Proof. exact revision_id_to_revno_spec. Qed.
+Print Assumptions C22_revno_position.
+
+Theorem C22_revno_roundtrip :
+  forall b, wf_dag (br_g b) = true ->
+  (forall n, n < last_revno b ->
+     exists r, get_rev_id b (Z.of_nat (S n)) = Ok (Some r) /\ revision_id_to_revno b (Some r) = Ok (S n)) /\
+  (forall r, In r (lh b) ->
+     exists n, revision_id_to_revno b (Some r) = Ok (S n) /\ get_rev_id b (Z.of_nat (S n)) = Ok (Some r)) /\
+  (forall r, ~ In r (lh b) -> revision_id_to_revno b (Some r) = Err NoSuchRevision).
+Proof.
+  intros b W. split; [|split].
+  - intros n L. apply revno_roundtrip_number; assumption.
+  - intros r H. apply revno_roundtrip_id; assumption.
+  - apply revision_id_to_revno_not_mainline.
+Qed.
+Print Assumptions C22_revno_roundtrip.
+
+(* ---- the dict / list-filter lookups are inverse over ANY merge-sorted list ---------- *)
+
+Theorem C22_lookup_inverse :
+  forall l : list ms4, NoDup (map m_id l) -> NoDup (map m_revno l) ->
+  let m := revno_map_of l in
+  (forall e, In e l -> dict_get (m_id e) m = Some (m_revno e) /\ lookup_dotted m (m_revno e) = Ok (m_id e)) /\
+  (forall r d, dict_get r m = Some d -> lookup_dotted m d = Ok r) /\
+  (forall r d, lookup_dotted m d = Ok r -> dict_get r m = Some d) /\
+  (forall r d, dict_get r m = Some d -> exists e, In e l /\ m_id e = r /\ m_revno e = d).
+Proof. exact lookup_inverse. Qed.
+Print Assumptions C22_lookup_inverse.
+
+(* ---- the merge-sorted list: ids = the ancestry, each once (PARTIAL: revnos) ---------- *)
+
+(* the ids are exactly the present ancestors of the tip, each exactly once;
+   the depth-0 entries are the left-hand history.  NOT proved here: the dotted
+   revnos are pairwise distinct (checked on the real lists by the oracle). *)
+Theorem C22_merge_sort_ids_partial :
+  forall g (t : revid), wf_dag g = true -> t < length g ->
+  NoDup (ms_ids (merge_sorted g (Some t))) /\
+  (forall x, In x (ms_ids (merge_sorted g (Some t))) <-> reach g x t /\ x < length g) /\
+  Permutation (ms_ids (merge_sorted g (Some t))) (filter (present g) (ancestors g [t])) /\
+  (lefthand_present g t = true -> map e_id (depth0 (merge_sorted g (Some t))) = lefthand g t).
+Proof.
+  intros g t W L. split; [apply merge_sorted_NoDup; exact W|]. split; [|split].
+  - intros x. apply merge_sorted_ids; assumption.
+  - apply merge_sorted_perm; assumption.
+  - intros P. apply depth0_is_lefthand; assumption.
+Qed.
+Print Assumptions C22_merge_sort_ids_partial.
+
+(* id -> dotted revno -> id and dotted revno -> id -> dotted revno, through the
+   code's two paths (mainline by position, everything else by the revno map);
+   a dotted revno exists exactly for the revisions of the merge-sorted list *)
+Theorem C22_dotted_roundtrip :
+  forall b, wf_dag (br_g b) = true -> ms_good b ->
+  (forall r d, revision_id_to_dotted_revno b (Some r) = Ok d -> dotted_revno_to_revision_id b d = Ok (Some r)) /\
+  (forall d r, dotted_revno_to_revision_id b d = Ok (Some r) -> revision_id_to_dotted_revno b (Some r) = Ok d) /\
+  (forall r, lh_present b ->
+     ((exists d, revision_id_to_dotted_revno b (Some r) = Ok d) <->
+      In r (ms_ids (merge_sorted (br_g b) (br_tip b))))).
+Proof.
+  intros b W G. split; [|split].
+  - apply dotted_roundtrip_id; assumption.
+  - apply dotted_roundtrip_revno; assumption.
+  - intros r P. apply dotted_revno_defined; assumption.
+Qed.
+Print Assumptions C22_dotted_roundtrip.
+
+(* ---- specifier semantics ---------------------------------------------------------------- *)
+
+(* "n" / "revno:n" *)
+Theorem C22_spec_revno :
+  forall b n r, lh_present b -> nth_error (history b) n = Some r ->
+  as_revision_id b (SRevno (Z.of_nat (S n))) = Ok (Some r) /\
+  in_history b (SRevno (Z.of_nat (S n))) = Ok (Some (S n), Some r).
+Proof. exact spec_revno. Qed.
+Print Assumptions C22_spec_revno.
+
+Theorem C22_spec_revno_edges :
+  forall b,
+  (as_revision_id b (SRevno 0) = Ok None /\ in_history b (SRevno 0) = Ok (Some 0, None)) /\
+  (forall n, (Z.of_nat (last_revno b) < n)%Z ->
+     as_revision_id b (SRevno n) = Err InvalidRevisionSpec /\ in_history b (SRevno n) = Err InvalidRevisionSpec).
+Proof. intros b. split; [apply spec_revno_zero | apply spec_revno_too_big]. Qed.
+Print Assumptions C22_spec_revno_edges.
+
+(* "-k": the k-th revision from the end; beyond the beginning it is clamped to revision 1 *)
+Theorem C22_spec_negative :
+  forall b,
+  (forall k r, lh_present b -> nth_error (lh b) k = Some r ->
+     as_revision_id b (SRevno (- Z.of_nat (S k))) = Ok (Some r) /\
+     in_history b (SRevno (- Z.of_nat (S k))) = Ok (Some (last_revno b - k), Some r)) /\
+  (forall k, 1 <= k ->
+     lookup_revno b (- Z.of_nat k) =
+     lookup_revno b (Z.of_nat (if last_revno b <=? k then 1 else last_revno b + 1 - k))).
+Proof. intros b. split; [apply spec_revno_from_end | apply spec_revno_negative]. Qed.
+Print Assumptions C22_spec_negative.
+
+(* "last:k" = "-k" inside the history, "last:" = the tip, "last:0" and beyond the null revision: invalid *)
+Theorem C22_spec_last :
+  forall b,
+  (forall k, 1 <= k <= last_revno b -> lookup_last b (Some (Z.of_nat k)) = lookup_revno b (- Z.of_nat k)) /\
+  (last_revno b <> 0 -> as_revision_id b (SLast None) = Ok (br_tip b)) /\
+  (forall k, (k <= 0 \/ Z.of_nat (last_revno b) + 1 < k)%Z ->
+     as_revision_id b (SLast (Some k)) = Err InvalidRevisionSpec).
+Proof. intros b. split; [apply spec_last | split; [apply spec_last_tip | apply spec_last_invalid]]. Qed.
+Print Assumptions C22_spec_last.
+
+(* "a.b.c" names the revision whose dotted revno it is, and every dotted revno is reachable *)
+Theorem C22_spec_dotted :
+  forall b d r, wf_dag (br_g b) = true -> ms_good b ->
+  (as_revision_id b (SDotted d) = Ok (Some r) -> revision_id_to_dotted_revno b (Some r) = Ok d) /\
+  (revision_id_to_dotted_revno b (Some r) = Ok d -> as_revision_id b (SDotted d) = Ok (Some r)).
+Proof. intros b d r W G. split; [apply spec_dotted | apply spec_dotted_complete]; assumption. Qed.
+Print Assumptions C22_spec_dotted.
+
+(* "revid:r" *)
+Theorem C22_spec_revid :
+  forall b r,
+  as_revision_id b (SRevid r) = Ok (Some r) /\
+  (present (br_g b) r = true -> exists n, in_history b (SRevid r) = Ok (n, Some r)) /\
+  (present (br_g b) r = false -> in_history b (SRevid r) = Err InvalidRevisionSpec).
+Proof. exact spec_revid. Qed.
+Print Assumptions C22_spec_revid.
+
+(* "before:s": the left-hand parent of what s names (the null revision for a root) *)
+Theorem C22_spec_before :
+  forall b s,
+  (forall r, as_revision_id b s = Ok (Some r) -> present (br_g b) r = true ->
+     as_revision_id b (SBefore s) = Ok (hd_error (parents (br_g b) r))) /\
+  (as_revision_id b s = Ok None -> as_revision_id b (SBefore s) = Err InvalidRevisionSpec).
+Proof. intros b s. split; [intros r; apply spec_before | apply spec_before_null]. Qed.
+Print Assumptions C22_spec_before.
+
+(* "tag:t" *)
+Theorem C22_spec_tag :
+  forall b t,
+  as_revision_id b (STag t) = match tag_lookup t (br_tags b) with Some r => Ok (Some r) | None => Err NoSuchTag end.
+Proof. exact spec_tag. Qed.
+Print Assumptions C22_spec_tag.
+
+(* "ancestor:other": a common ancestor of the two tips; the greatest one when there is one *)
+Theorem C22_spec_ancestor :
+  forall b a o, wf_dag (br_g b) = true -> br_tip b = Some a ->
+  (forall r, as_revision_id b (SAncestor (Some o)) = Ok (Some r) ->
+     is_ancestor (br_g b) r a = true /\ is_ancestor (br_g b) r o = true) /\
+  (forall c, is_ancestor (br_g b) c a = true -> is_ancestor (br_g b) c o = true ->
+     (forall x, is_ancestor (br_g b) x a = true -> is_ancestor (br_g b) x o = true ->
+                is_ancestor (br_g b) x c = true) ->
+     as_revision_id b (SAncestor (Some o)) = Ok (Some c)).
+Proof.
+  intros b a o W T. split.
+  - intros r. apply spec_ancestor; assumption.
+  - intros c. apply spec_ancestor_greatest; assumption.
+Qed.
+Print Assumptions C22_spec_ancestor.
+
+(* "mainline:s": the oldest revision of the left-hand history that has the
+   revision named by s in its ancestry; invalid when the tip does not descend from it *)
+Theorem C22_spec_mainline :
+  forall b s m t, wf_dag (br_g b) = true -> br_tip b = Some t ->
+  as_revision_id b s = Ok (Some m) ->
+  (forall r, as_revision_id b (SMainline s) = Ok (Some r) ->
+     exists pre post, lefthand (br_g b) t = pre ++ r :: post /\
+       Forall (fun c => is_ancestor (br_g b) m c = true) (pre ++ [r]) /\
+       Forall (fun c => is_ancestor (br_g b) m c = false) post) /\
+  (is_ancestor (br_g b) m t = false -> as_revision_id b (SMainline s) = Err InvalidRevisionSpec).
+Proof.
+  intros b s m t W T Hs. split.
+  - intros r. apply (spec_mainline b s m t r W T Hs).
+  - apply (spec_mainline_invalid b s m t W T Hs).
+Qed.
+Print Assumptions C22_spec_mainline.
